@@ -109,7 +109,7 @@ def script_of(hist, rng, nmax=24, threads=(1, 2, 4), ienv=None, scale_for_equil=
         elif c["call"] == "vals":
             # when a later call asks for the old row order: in half of the cases one old pivot entry becomes exactly zero (the request must fall back)
             later_usepr = any(d.get("usepr") for d in hist[ci + 1:])
-            lines.append("vals seed=%d%s" % (rng.randrange(1, 10 ** 6), " zp=%d" % rng.choice([1, 2]) if later_usepr and rng.random() < 0.5 else ""))
+            lines.append("vals seed=%d%s" % (rng.randrange(1, 10 ** 6), " zp=%d" % rng.choice([1, 2]) if later_usepr and rng.random() < 0.7 else ""))
         elif c["call"] == "gssv":
             nr, pd, _ = rhs_shape(rng.choice([0, 1, 2, 3]), rng.choice([0, 0, 3]), 0)
             lines.append("gssv P=%d nrhs=%d pad=%d seed=%d" % (rng.choice(threads), nr, pd, rng.randrange(1, 10 ** 6)))
